@@ -20,7 +20,7 @@ tvars == <<lvars, l, postOf, cbal, obs>>
 
 Trace == ndJsonDeserialize(TraceFile)
 
-NoObs == [h |-> 0, liab |-> <<>>, rew |-> <<>>, time |-> 0, rel |-> <<>>, app |-> <<>>, pays |-> <<>>, unpaid |-> 0]
+NoObs == [h |-> 0, liab |-> <<>>, rew |-> <<>>, time |-> 0, rel |-> <<>>, app |-> <<>>, pays |-> <<>>, unpaid |-> 0, sur |-> <<>>, surdrop |-> FALSE]
 
 TInit == LInit /\ l = 1 /\ postOf = <<>> /\ cbal = <<>> /\ obs = NoObs /\ TLCSet(1, 1)
 
@@ -106,6 +106,15 @@ UnpaidEpochs(old, new) ==
      ELSE LET i == CHOOSE k \in S : TRUE  n == new[i]  o == OldRew(old, n.c)
           IN (n.last - o.last) - n.paid
 
+\* C10, sharper than Backed: what a lock-keeping contract holds beyond what it owes never shrinks. A genesis surplus would
+\* otherwise hide an entry that was created without the funds behind it (a fusion recorded in QSR for a deposit in another
+\* token). Only for the contracts whose balance moves with their entries alone (E.strict lists them: plasma, stake, HTLC).
+SurplusOf(liab, cb) ==
+  LET S == {i \in 1..Len(liab) : liab[i].strict /\ BLeq(liab[i].owed, Get(cb, <<liab[i].c, liab[i].t>>, BZero))}
+  IN [k \in {<<liab[i].c, liab[i].t>> : i \in S} |->
+        LET i == CHOOSE j \in S : <<liab[j].c, liab[j].t>> = k IN BSub(Get(cb, k, BZero), liab[i].owed)]
+SurplusDrops(old, new) == \E k \in DOMAIN old \cap DOMAIN new : ~BLeq(old[k], new[k])
+
 TMom == /\ IsEvent("Mom")
         /\ Confirm(E.sids)
         /\ cbal' = FoldPost(cbal, postOf, E.bids)
@@ -114,7 +123,8 @@ TMom == /\ IsEvent("Mom")
         /\ postOf' = [b \in DOMAIN postOf \ {E.bids[i] : i \in 1..Len(E.bids)} |-> postOf[b]]
         /\ RewardStep(obs.rew, E.rew)
         /\ obs' = [h |-> E.h, liab |-> E.liab, rew |-> E.rew, time |-> E.time, rel |-> E.rel, app |-> E.app, pays |-> E.pays,
-                   unpaid |-> UnpaidEpochs(obs.rew, E.rew)]
+                   unpaid |-> UnpaidEpochs(obs.rew, E.rew),
+                   sur |-> SurplusOf(E.liab, cbal'), surdrop |-> SurplusDrops(obs.sur, SurplusOf(E.liab, cbal'))]
 
 TNext == TReset \/ TGenesis \/ TSend \/ TRecv \/ TMisRecv \/ TCRecv \/ TMom
 
@@ -141,6 +151,7 @@ ReleaseOK(r) ==
 ReleasedRight == \A i \in 1..Len(obs.rel) : ReleaseOK(obs.rel[i])
 
 EveryConsumedEpochPaid == obs.unpaid = 0
+SurplusKept == ~obs.surdrop
 
 HighWater == TLCSet(1, IF TLCGet(1) > l THEN TLCGet(1) ELSE l)
 Accepted == IF TLCGet(1) = Len(Trace) + 1 THEN TRUE ELSE PrintT(<<"REJECTED_AT", TLCGet(1)>>) /\ FALSE
